@@ -51,3 +51,7 @@ Lemma go_fresh_ok : forall c0 h0 lv evs k b,
   live s = true -> getw k s = None ->
   stat_of k (run go_futures_cfg s [ESend k false; EDeliver (id_of (ctr s + 1)) b; EWake k]) = Some (DoneOk b).
 Proof. intros c0 h0 lv evs k b. apply fresh_ok. exact (proj1 go_futures_good). Qed.
+
+Lemma go_request_ids_distinct : forall c0 h0 lv evs,
+  (N.of_nat (length evs) < two32)%N -> NoDup (drawn go_futures_cfg (init c0 h0 lv) evs).
+Proof. intros. now apply drawn_nodup. Qed.
